@@ -286,6 +286,7 @@ Proof.
   - apply attack_mapping_ok. - apply target_mapping_ok.
   - apply encodings_opt_ok. - apply encodings_opt_ok.
   - apply null_point_ok. - apply null_point_ok.
+  - apply agents_ok.
 Qed.
 
 Lemma validate_iff : forall a v, validate a v = Accept <-> domain a v = true.
